@@ -556,3 +556,448 @@ def mode_cases(module_name, inner_build, mode_suite, built, rng, tier, first=2, 
         batch = ModeBatch(module_name, flags)
         for c in chosen:
             yield mode_case(batch, inner_build, mode_suite, c.suite, c.info)
+
+
+# ---------------------------------------------------------------------------------------------------------------
+# the SAME mutable argument object used again and again.  A caller keeps ONE graph object, builds something on it,
+# looks at the result, edits the object IN PLACE (mostly by edits that keep the number of vertices and of edges:
+# one edge removed and another added, a degree-preserving switch, two labels exchanged, a vertex moved to the other
+# side, the two sides exchanged), builds again on the very same object, ...  Every build is compared with the Lean
+# model on the value the argument has AT THAT MOMENT and judged by the calling module's own property oracle.
+#
+#   value  : {"kind": "simple"|"digraph", "n", "edges"} or {"kind": "bipartite", "l", "r", "edges"} (sorted pairs over
+#            1..n; simple: u < v) -- the harness's own bookkeeping, never read back from the object under test
+#   form   : "cnfgen" (Graph / DirectedGraph / BipartiteGraph object) or "nx" (networkx Graph / DiGraph with odd labels)
+#   op     : ["add", u, v] | ["rm", u, v] | ["swap", a, b] (bipartite: ["swap", side, a, b]) | ["vertex"] (bipartite:
+#            ["vertex", side]) | ["move", side, i, targets] | ["sides"]      (the last two: bipartite networkx only)
+#   history: {"slots": {name: {"value", "form", "salt"}}, "steps": [{"edits": [[slot, op], ...], "use": [suite, info]}]}
+
+def gvalue(kind, size, edges):
+    if kind == "bipartite":
+        es = sorted({(int(u), int(v)) for u, v in edges})
+        return {"kind": kind, "l": int(size[0]), "r": int(size[1]), "edges": [list(e) for e in es]}
+    if kind == "simple":
+        es = sorted({(min(int(u), int(v)), max(int(u), int(v))) for u, v in edges})
+    else:
+        es = sorted({(int(u), int(v)) for u, v in edges})
+    return {"kind": kind, "n": int(size if isinstance(size, int) else size[0]), "edges": [list(e) for e in es]}
+
+
+def _tr(a, b, x):
+    return b if x == a else a if x == b else x
+
+
+def value_after(value, op):
+    """the value after one in-place edit (pure)"""
+    kind = value["kind"]
+    E = {tuple(e) for e in value["edges"]}
+    t = op[0]
+    if kind == "bipartite":
+        l, r = value["l"], value["r"]
+        if t == "add":
+            E.add((op[1], op[2]))
+        elif t == "rm":
+            E.discard((op[1], op[2]))
+        elif t == "swap":
+            _, side, a, b = op
+            E = {(_tr(a, b, u), v) if side == 0 else (u, _tr(a, b, v)) for u, v in E}
+        elif t == "vertex":
+            l, r = (l + 1, r) if op[1] == 0 else (l, r + 1)
+        elif t == "sides":
+            l, r = r, l
+            E = {(v, u) for u, v in E}
+        elif t == "move":
+            _, side, i, targets = op
+            if side == 0:       # left vertex i leaves (its edges go), the left side closes ranks, a new LAST right vertex
+                E = {(u - (u > i), v) for u, v in E if u != i}
+                l, r = l - 1, r + 1
+                E |= {(x, r) for x in targets}
+            else:
+                E = {(u, v - (v > i)) for u, v in E if v != i}
+                l, r = l + 1, r - 1
+                E |= {(l, x) for x in targets}
+        else:
+            raise ValueError(op)
+        return gvalue(kind, (l, r), E)
+    n = value["n"]
+    norm = (lambda u, v: (min(u, v), max(u, v))) if kind == "simple" else (lambda u, v: (u, v))
+    if t == "add":
+        E.add(norm(op[1], op[2]))
+    elif t == "rm":
+        E.discard(norm(op[1], op[2]))
+    elif t == "swap":
+        E = {norm(_tr(op[1], op[2], u), _tr(op[1], op[2], v)) for u, v in E}
+    elif t == "vertex":
+        n += 1
+    else:
+        raise ValueError(op)
+    return gvalue(kind, n, E)
+
+
+def reuse_caps(kind, form):
+    """the in-place edits the argument form offers"""
+    if form == "nx":
+        return {"add", "rm", "swap", "vertex"} | ({"move", "sides"} if kind == "bipartite" else set())
+    if kind == "simple":
+        return {"add", "rm", "swap", "vertex"}          # Graph.remove_edge / update_vertex_number exist
+    return {"add"}                                      # DirectedGraph / BipartiteGraph objects only grow
+
+
+class LiveArg:
+    """the one argument object of a history and the way its owner edits it"""
+
+    def __init__(self, value, form, salt=0):
+        self.value, self.form, self.kind = value, form, value["kind"]
+        self.rng = Rng(_crc("live", json.dumps(value, sort_keys=True), form, salt))
+        kind, rng = self.kind, self.rng
+        edges = [tuple(e) for e in value["edges"]]
+        rng.shuffle(edges)
+        if form == "cnfgen":
+            from cnfgen.graphs import DirectedGraph, BipartiteGraph
+            if kind == "simple":
+                self.obj = graph_argument(value["n"], edges, salt, route=_crc(salt, "route") % 7)
+            elif kind == "digraph":
+                self.obj = DirectedGraph(value["n"])
+                for u, v in edges:
+                    self.obj.add_edge(u, v)
+            else:
+                self.obj = BipartiteGraph(value["l"], value["r"])
+                for u, v in edges:
+                    self.obj.add_edge(u, v)
+            return
+        import networkx
+        if kind == "bipartite":
+            self.attr = rng.choice([(0, 1), (False, True), ("0", "1")])
+            self.next = [value["l"] + 1, value["r"] + 1]
+            self.lab = [[("a", i) for i in range(1, value["l"] + 1)], [("b", j) for j in range(1, value["r"] + 1)]]
+            H = networkx.Graph(name="the caller's networkx graph")
+            todo = [list(reversed(self.lab[0])), list(reversed(self.lab[1]))]
+            while todo[0] or todo[1]:               # sides interleaved, each side in increasing order
+                s = rng.choice([k for k in (0, 1) if todo[k]])
+                H.add_node(todo[s].pop(), bipartite=self.attr[s])
+            for u, v in edges:
+                e = (self.lab[0][u - 1], self.lab[1][v - 1])
+                H.add_edge(*(e if rng.random() < .5 else e[::-1]))
+            self.obj = H
+            return
+        n = value["n"]
+        self.style = rng.choice(["int", "int", "str"])
+        self.lab, self.top = [], rng.randint(-5, 5)
+        for _ in range(n):
+            self.lab.append(self._fresh_label())
+        H = (networkx.Graph if kind == "simple" else networkx.DiGraph)(name="the caller's networkx graph")
+        nodes = list(self.lab)
+        rng.shuffle(nodes)
+        if nodes == self.lab and n >= 2:
+            nodes.reverse()
+        for x in nodes:
+            H.add_node(x)
+        for u, v in edges:
+            a, b = self.lab[u - 1], self.lab[v - 1]
+            if kind == "simple" and rng.random() < .5:
+                a, b = b, a
+            H.add_edge(a, b)
+        self.obj = H
+
+    def _fresh_label(self):
+        self.top += self.rng.randint(1, 4)
+        return self.top if self.style == "int" else "v{:05d}".format(self.top + 10)
+
+    # -- in-place edits
+    def apply(self, op):
+        before = self.value
+        getattr(self, "_" + self.form + "_" + ("bip" if self.kind == "bipartite" else "g"))(op, before)
+        self.value = value_after(before, op)
+        if self.form == "nx":
+            seen = nx_value(self.obj, self.kind)
+            if seen != self.value:
+                raise AssertionError("harness bookkeeping differs from the networkx object: {} vs {}".format(seen, self.value))
+
+    def _either(self, u, v):
+        return (u, v) if (self.kind != "simple" or self.rng.random() < .5) else (v, u)
+
+    def _cnfgen_g(self, op, before):
+        G, t = self.obj, op[0]
+        if t == "add":
+            G.add_edge(*self._either(op[1], op[2]))
+        elif t == "rm":
+            G.remove_edge(*self._either(op[1], op[2]))
+        elif t == "vertex":
+            G.update_vertex_number(before["n"] + 1)
+        elif t == "swap":
+            a, b = op[1], op[2]
+            old = [tuple(e) for e in before["edges"] if a in e or b in e]
+            new = sorted({tuple(sorted((_tr(a, b, u), _tr(a, b, v)))) for u, v in old})
+            for u, v in old:
+                G.remove_edge(*self._either(u, v))
+            for u, v in new:
+                G.add_edge(*self._either(u, v))
+        else:
+            raise ValueError(op)
+
+    def _cnfgen_bip(self, op, before):
+        if op[0] != "add":
+            raise ValueError(op)
+        self.obj.add_edge(op[1], op[2])
+
+    def _nx_g(self, op, before):
+        import networkx
+        H, t, lab = self.obj, op[0], self.lab
+        if t == "add":
+            u, v = self._either(op[1], op[2])
+            H.add_edge(lab[u - 1], lab[v - 1])
+        elif t == "rm":
+            u, v = self._either(op[1], op[2])
+            H.remove_edge(lab[u - 1], lab[v - 1])
+        elif t == "vertex":
+            lab.append(self._fresh_label())
+            H.add_node(lab[-1])
+        elif t == "swap":                               # the two labels change places (three in-place renamings)
+            a, b = lab[op[1] - 1], lab[op[2] - 1]
+            tmp = ("tmp", 0)
+            for x, y in ((a, tmp), (b, a), (tmp, b)):
+                networkx.relabel_nodes(H, {x: y}, copy=False)
+        else:
+            raise ValueError(op)
+
+    def _nx_bip(self, op, before):
+        H, t, lab = self.obj, op[0], self.lab
+
+        def edge(u, v):
+            e = (lab[0][u - 1], lab[1][v - 1])
+            return e if self.rng.random() < .5 else e[::-1]
+        if t == "add":
+            H.add_edge(*edge(op[1], op[2]))
+        elif t == "rm":
+            H.remove_edge(*edge(op[1], op[2]))
+        elif t == "vertex":
+            s = op[1]
+            lab[s].append(("ab"[s], self.next[s]))
+            self.next[s] += 1
+            H.add_node(lab[s][-1], bipartite=self.attr[s])
+        elif t == "swap":                               # two vertices of one side exchange their neighbourhoods
+            _, s, a, b = op
+            old = [tuple(e) for e in before["edges"] if e[s] in (a, b)]
+            new = sorted({(_tr(a, b, u), v) if s == 0 else (u, _tr(a, b, v)) for u, v in old})
+            for u, v in old:
+                H.remove_edge(*edge(u, v))
+            for u, v in new:
+                H.add_edge(*edge(u, v))
+        elif t == "sides":
+            flip = {self.attr[0]: self.attr[1], self.attr[1]: self.attr[0]}
+            for x in H.nodes():
+                H.nodes[x]["bipartite"] = flip[H.nodes[x]["bipartite"]]
+            lab[0], lab[1] = lab[1], lab[0]
+        elif t == "move":                               # the vertex is taken out and put back on the other side
+            _, s, i, targets = op
+            x = lab[s].pop(i - 1)
+            H.remove_node(x)
+            H.add_node(x, bipartite=self.attr[1 - s])
+            lab[1 - s].append(x)
+            for y in targets:                           # indices on the old side after it closed ranks
+                H.add_edge(*((x, lab[s][y - 1]) if self.rng.random() < .5 else (lab[s][y - 1], x)))
+        else:
+            raise ValueError(op)
+
+
+def nx_value(H, kind):
+    """the harness's own reading of a networkx object as a family argument (documented: vertex i = i-th smallest node;
+    bipartite: the i-th node of its side in node order)"""
+    if kind == "bipartite":
+        side = [[], []]
+        for x in H.nodes():
+            side[int(H.nodes[x]["bipartite"])].append(x)
+        pos = [{x: i for i, x in enumerate(side[0], 1)}, {x: i for i, x in enumerate(side[1], 1)}]
+        es = [(pos[0][a], pos[1][b]) if a in pos[0] else (pos[0][b], pos[1][a]) for a, b in H.edges()]
+        return gvalue(kind, (len(side[0]), len(side[1])), es)
+    pos = {x: i for i, x in enumerate(sorted(H.nodes()), 1)}
+    return gvalue(kind, len(pos), [(pos[a], pos[b]) for a, b in H.edges()])
+
+
+def gen_reuse_edit(rng, value, form, dag=False):
+    """one edit of the owner = (name, short list of ops applicable to `form`); mostly edits that leave the number of
+    vertices and the number of edges as they were.  dag: keep every edge increasing (digraphs used as DAGs)"""
+    for _ in range(6):
+        name, ops = _gen_reuse_edit(rng, value, form, dag)
+        if ops:
+            return name, ops
+    return "none", []
+
+
+def _gen_reuse_edit(rng, value, form, dag):
+    kind = value["kind"]
+    caps = reuse_caps(kind, form)
+    E = [tuple(e) for e in value["edges"]]
+    Es = set(E)
+    if kind == "bipartite":
+        l, r = value["l"], value["r"]
+        allp = [(u, v) for u in range(1, l + 1) for v in range(1, r + 1)]
+    else:
+        n = value["n"]
+        allp = [(u, v) for u in range(1, n + 1) for v in range(1, n + 1)
+                if u != v and (u < v or (kind == "digraph" and not dag))]
+    absent = [p for p in allp if p not in Es]
+    menu = []
+    if "rm" in caps and E and absent:
+        menu += ["rewire"] * 5 + ["zero-run"] * 2
+        if len(E) >= 2:
+            menu += ["switch"] * 3
+    if "swap" in caps:
+        menu += ["swap"] * 2
+    if "move" in caps and l + r >= 1:
+        menu += ["move"] * 2
+    if "sides" in caps:
+        menu += ["sides"]
+    if kind == "digraph" and "rm" in caps and E and not dag:
+        menu += ["flip"] * 2
+    if absent and (not menu or rng.random() < .2):
+        menu += ["grow"] * (2 if menu else 1)
+    if "vertex" in caps and rng.random() < .1:
+        menu += ["vertex"]
+    if "rm" in caps and E and rng.random() < .1:
+        menu += ["shrink"]
+    if not menu:
+        return "none", []
+    name = rng.choice(menu)
+    if name == "rewire":
+        e, f = rng.choice(E), rng.choice(absent)
+        ops = [["rm", *e], ["add", *f]]
+        if rng.random() < .4:
+            ops.reverse()
+        return name, ops
+    if name == "zero-run":
+        k = rng.randint(1, min(3, len(E), len(absent)))
+        ops = [["rm", *e] for e in rng.sample(E, k)] + [["add", *f] for f in rng.sample(absent, k)]
+        rng.shuffle(ops)
+        return name, ops
+    if name == "switch":
+        for _ in range(20):
+            (a, b), (c, d) = rng.sample(E, 2)
+            if kind == "simple" and rng.random() < .5:
+                c, d = d, c
+            new = [(a, d), (c, b)]
+            if kind == "simple":
+                new = [(min(p), max(p)) for p in new]
+            if a != c and b != d and (kind == "bipartite" or len({a, b, c, d}) == 4) \
+                    and all(p in absent for p in new) and new[0] != new[1]:
+                return name, [["rm", a, b], ["rm", c, d], ["add", *new[0]], ["add", *new[1]]]
+        e, f = rng.choice(E), rng.choice(absent)
+        return "rewire", [["rm", *e], ["add", *f]]
+    if name == "swap":
+        if kind == "bipartite":
+            sides = [s for s in (0, 1) if (l, r)[s] >= 2]
+            if not sides:
+                return "none", []
+            s = rng.choice(sides)
+            a, b = rng.sample(range(1, (l, r)[s] + 1), 2)
+            return name, [["swap", s, a, b]]
+        if n < 2:
+            return "none", []
+        for _ in range(12):
+            a, b = sorted(rng.sample(range(1, n + 1), 2))
+            after = value_after(value, ["swap", a, b])
+            if (not dag or all(u < v for u, v in after["edges"])) and (after != value or _ == 11):
+                return name, [["swap", a, b]]
+        return "none", []
+    if name == "move":
+        s = rng.choice([k for k in (0, 1) if (l, r)[k] >= 1])
+        i = rng.randint(1, (l, r)[s])
+        deg = sum(1 for e in E if e[s] == i)
+        rest = (l, r)[s] - 1
+        return name, [["move", s, i, sorted(rng.sample(range(1, rest + 1), min(deg, rest)))]]
+    if name == "sides":
+        return name, [["sides"]]
+    if name == "flip":
+        u, v = rng.choice(E)
+        if (v, u) in Es or u == v:
+            return "none", []
+        return name, [["rm", u, v], ["add", v, u]]
+    if name == "grow":
+        return name, [["add", *f] for f in rng.sample(absent, min(len(absent), rng.choice([1, 1, 2])))]
+    if name == "vertex":
+        return name, [["vertex", rng.randint(0, 1)] if kind == "bipartite" else ["vertex"]]
+    return name, [["rm", *rng.choice(E)]]
+
+
+def gen_reuse_history(rng, slots, nuses, pick_use, dag=()):
+    """slots: {name: {"value", "form", "salt"[, "frozen"]}}; pick_use(rng, values, previous use or None) -> [suite, info] of
+    the module's own case on the CURRENT values.  Between two uses every slot is edited with probability 3/4 (at least one);
+    a "frozen" slot is never edited (the same object handed over again and again as it is)"""
+    values = {s: d["value"] for s, d in slots.items()}
+    steps, prev = [], None
+    for i in range(nuses):
+        edits, names = [], []
+        if i > 0:
+            chosen = [s for s in sorted(slots) if rng.random() < .75] or [rng.choice(sorted(slots))]
+            for s in chosen:
+                if slots[s].get("frozen"):
+                    continue
+                for _ in range(rng.choice([1, 1, 1, 2])):
+                    name, ops = gen_reuse_edit(rng, values[s], slots[s]["form"], dag=s in dag)
+                    names.append(name)
+                    for op in ops:
+                        values[s] = value_after(values[s], op)
+                        edits.append([s, op])
+        prev = pick_use(rng, dict(values), prev)
+        steps.append({"edits": edits, "moves": names, "use": prev})
+    return {"slots": slots, "steps": steps}
+
+
+class ReuseRun:
+    """one history, run once when its first answer is needed: make the objects, then edit / build / judge in order"""
+
+    def __init__(self, slots):
+        self.slots, self.script, self.results, self.live = slots, [], None, None
+
+    def arg(self, slot):
+        return lambda: self.live[slot].obj
+
+    def edit(self, slot, op):
+        self.script.append(("edit", slot, op))
+
+    def use(self, inner):
+        self.script.append(("use", inner))
+        return sum(1 for s in self.script if s[0] == "use") - 1
+
+    def result(self, idx):
+        if self.results is None:
+            res = []
+            self.live = {s: LiveArg(d["value"], d["form"], d.get("salt", 0)) for s, d in self.slots.items()}
+            try:
+                for item in self.script:
+                    if item[0] == "edit":
+                        self.live[item[1]].apply(item[2])
+                    else:
+                        res.append((run_impl(item[1]), run_oracle(item[1])))   # judged NOW, before the next edit
+            except Exception as e:   # a refused edit is a harness error, made visible
+                while len(res) < sum(1 for s in self.script if s[0] == "use"):
+                    res.append(("HARNESS-ERROR {} {}".format(type(e).__name__, str(e)[:200]), None))
+            self.results, self.live = res, None
+        return self.results[idx]
+
+
+def reuse_cases(hist, inner_build, suite):
+    """the cases of one history: one per use, answered and judged while the history runs.
+    inner_build(suite, info, args) builds the module's case with `args[slot]()` as the graph argument object"""
+    run = ReuseRun(hist["slots"])
+    args = {s: run.arg(s) for s in hist["slots"]}
+    forms = "+".join("{}:{}".format(d["value"]["kind"], d["form"]) for _, d in sorted(hist["slots"].items()))
+    out, sofar = [], []
+    for i, st in enumerate(hist["steps"]):
+        for slot, op in st["edits"]:
+            run.edit(slot, op)
+        sofar = sofar + [[list(e) for e in st["edits"]]]
+        isuite, iinfo = st["use"]
+        inner = inner_build(isuite, iinfo, args)
+        idx = run.use(inner)
+
+        def oracle(idx=idx, i=i, edits=sofar):
+            r = run.result(idx)[1]
+            if r is None:
+                return None
+            return {"the_same_argument_object": forms, "use_number": i + 1, "in_place_edits_before_each_use": edits,
+                    "failure": r}
+        out.append(Case(suite, inner.req, (lambda idx=idx: run.result(idx)[0]), oracle,
+                        cls="{}:{}:{}".format(forms, "first" if i == 0 else "again", isuite),
+                        nontrivial=inner.nontrivial, info={"hist": hist, "step": i}))
+    return out
